@@ -54,15 +54,56 @@ def run_property(pid, tier, seed, t0=None):
             for step in (inst.path or []):
                 print("      path: %s" % step)
             print("VIOLATION property=%s replay=%s" % (pid, path))
+    validation = None
+    if tier == "thorough" and not os.environ.get("SA_NO_SELFVALIDATION"):
+        validation = _checker_validation(pid)
+        print("  checker validation on scratch copies of the current tree: %(breaking_fired)d/%(breaking)d breaking variants reported, "
+              "%(benign_silent)d/%(benign)d benign variants silent, %(skipped)d not applicable to this tree" % validation)
     wall = time.time() - t0
     extra = {
         "analysed_files": [{"file": m.relpath, "sha256": m.sha256} for m in sorted(prog.modules.values(), key=lambda m: m.name)],
         "not_decided": spec.get("not_decided", []),
         "call_resolution": ctx.call_resolution_stats(),
     }
+    if validation is not None:
+        extra["checker_validation"] = validation
     report.write_evidence(pid, tier, seed, results, wall, spec["explanation"], spec["assumptions"],
                           extra=extra, n_violations=n_viol, known_printed=known_printed)
     print("property %s: %s (%d rule instances, %d unlisted violation(s), %d known finding(s), %.2fs)" % (
         pid, "HOLDS on everything analysed" if n_viol == 0 else "VIOLATED",
         sum(len(r.instances) for r in results), n_viol, len(known_printed), wall))
     return 1 if n_viol else 0
+
+
+def _checker_validation(pid):
+    """Thorough tier only, informational (never changes the verdict): apply this property's variant corpus and the
+    seeded changes to scratch copies of the CURRENT tree and record whether the quick check reports them."""
+    from concurrent.futures import ThreadPoolExecutor
+    from . import selftest
+    from .selftest_variants import VARIANTS
+    vs = [v for v in VARIANTS if pid in (v.get("props") or [v.get("prop")])]
+    vs += [v for v in selftest.load_seeded() if pid in v["props"]]
+    os.environ["SA_NO_SELFVALIDATION"] = "1"
+    with ThreadPoolExecutor(max_workers=16) as ex:
+        res = list(ex.map(selftest.run_variant, vs))
+    out = {"breaking": 0, "breaking_fired": 0, "benign": 0, "benign_silent": 0, "skipped": 0, "not_as_expected": []}
+    for r in res:
+        v = r["v"]
+        if r["status"] in ("skipped", "broken-variant"):
+            out["skipped"] += 1
+            continue
+        benign = v.get("expect") is None or v.get("kind") == "benign"
+        codes = r.get("codes", [])
+        if benign:
+            out["benign"] += 1
+            if all(c == 0 for c in codes):
+                out["benign_silent"] += 1
+            else:
+                out["not_as_expected"].append(v["id"])
+        else:
+            out["breaking"] += 1
+            if any(c == 1 for c in codes):
+                out["breaking_fired"] += 1
+            elif not v.get("known_miss"):
+                out["not_as_expected"].append(v["id"])
+    return out
